@@ -235,7 +235,25 @@ def _streams_of(rep, repo, f, loops, done):
             try:
                 wit, pit, wnode = _strip_prod(b, "pre_weights"), a, 1
             except AnalysisError:
-                wit, pit, wnode = _strip_prod(a, "pre_weights"), b, 0
+                try:
+                    wit, pit, wnode = _strip_prod(a, "pre_weights"), b, 0
+                except AnalysisError:
+                    # the weight tuples may be reduced inside the loop instead: zip(point tuples, weight tuples)
+                    # with `w = np.prod(<weight tuple>)` in the body
+                    ta, tb = e5.show(a, 2000), e5.show(b, 2000)
+                    if ".weights" in tb and ".weights" not in ta:
+                        wit, pit, wnode = b, a, 1
+                    elif ".weights" in ta and ".weights" not in tb:
+                        wit, pit, wnode = a, b, 0
+                    else:
+                        raise
+                    tgt = lp.target.elts[wnode] if isinstance(lp.target, ast.Tuple) and len(lp.target.elts) == 2 else None
+                    reduced = tgt is not None and any(
+                        isinstance(n_, ast.Call) and norm(n_.func) in ("np.prod", "math.prod", "np.product") and n_.args
+                        and norm(n_.args[0]) == norm(tgt) for st_ in lp.body for n_ in ast.walk(st_))
+                    if not reduced:
+                        raise AnalysisError("unrecognised idiom: the weight combinations are neither reduced by np.prod "
+                                            "in a generator nor inside the loop")
             d = e5.diff(pit, e5.rename_attr(wit, "weights", "points"))
             if d is None:
                 rep.ok("R2.partial-combinations-lockstep", "MultiDomainGrid.integrate", repo.rel("ngrid", lp),
